@@ -3,6 +3,7 @@ import Percival.Proofs.HexEndian
 import Percival.Proofs.EndianRT
 import Percival.Proofs.SockLines
 import Percival.Proofs.JsonSpec
+import Percival.Proofs.ParsersStep
 /-! # C17 — encoders and decoders are mutually inverse and match their standards
 
 Models: `Model.B64`, `Model.Hex`, `Model.Endian`, `Model.SockAddr`, `Model.Json` (bounds-checked, following
@@ -272,5 +273,218 @@ theorem expectedFind_meaning (lead : Ws) (ms : JMembers) (trail key : List UInt8
     simp [expectedFind, hn]; omega
 example : find [0x6b] (JVal.obj [([.raw 0x61], .null), ([.uni 0x30 0x30 0x36 0x62], .null), ([.esc 0x6e], .null), ([.raw 0x6b], .null)]) = some 3 := by
   decide
+
+/-! ## The executable: `Model.ParsersStep.stepOp`, the function `pmodel parsers` runs on every protocol line
+
+For every op family of the `codec` component: the L1 part of the `Out` is the Spec's value and the L2 part (the
+model of the C) equals it — the theorems above instantiated at exactly the calls `stepOp` makes (`cbytes` = the C
+string a token stands for: the bytes before its first NUL). -/
+open Percival.Model.ParsersStep
+
+/-- `b64enc`: L1 = the RFC 4648 text and a NUL = L2, for every input. -/
+theorem exec_b64enc (b : List UInt8) :
+    stepOp (.b64enc b) = .b64enc (Rfc4648.encode b ++ [0]) (.ok (Rfc4648.encode b ++ [0])) := by
+  simp only [stepOp, b64encode_eq_rfc4648]
+example : stepOp (.b64enc [0x66, 0x6f]) = .b64enc [0x5a, 0x6d, 0x38, 0x3d, 0] (.ok [0x5a, 0x6d, 0x38, 0x3d, 0]) := by
+  decide +kernel
+
+/-- `b64dec`: on a well-formed text L1 is `some` of what the text denotes and the model accepts, its first `*outlen`
+    stored bytes being that; on any other text L1 is `none` and the model rejects. -/
+theorem exec_b64dec (s : List UInt8) :
+    (Rfc4648.WF s → ∃ w n, stepOp (.b64dec s) = .b64dec (some (Rfc4648.decode s)) (.ok (some (w, n))) ∧
+        w.take n = Rfc4648.decode s ∧ w.length = 3 * (s.length / 4)) ∧
+    (¬ Rfc4648.WF s → stepOp (.b64dec s) = .b64dec none (.ok none)) := by
+  constructor
+  · intro h
+    obtain ⟨w, n, h1, h2, h3, _⟩ := Proofs.B64.b64decode_wf s h
+    exact ⟨w, n, by simp only [stepOp, (Proofs.B64.wfb_iff s).mpr h, if_true, h1], h2, h3⟩
+  · intro h
+    have hb : Rfc4648.wfb s = false := by
+      cases hw : Rfc4648.wfb s with
+      | false => rfl
+      | true => exact absurd ((Proofs.B64.wfb_iff s).mp hw) h
+    simp only [stepOp, hb, Bool.false_eq_true, if_false, b64decode_rejects_not_wf s h]
+example : stepOp (.b64dec [0x5a, 0x6d, 0x39, 0x3d]) = .b64dec (some [0x66, 0x6f]) (.ok (some ([0x66, 0x6f, 0x40], 2))) ∧
+    stepOp (.b64dec [0x5a, 0x6d, 0x3d, 0x38]) = .b64dec none (.ok none) := by decide +kernel
+
+/-- `b64dec` of the RFC text of `b`: L1 = `b`, and the model returns length `|b|` and the bytes `b`. -/
+theorem exec_b64dec_b64enc (b : List UInt8) :
+    ∃ w, stepOp (.b64dec (Rfc4648.encode b)) = .b64dec (some b) (.ok (some (w, b.length))) ∧ w.take b.length = b := by
+  obtain ⟨w, h1, h2⟩ := b64decode_b64encode b
+  refine ⟨w, ?_, h2⟩
+  simp only [stepOp, (Proofs.B64.wfb_iff _).mpr (rfc4648_decode_encode b).1, if_true, (rfc4648_decode_encode b).2, h1]
+example : stepOp (.b64dec (Rfc4648.encode [0x66, 0x6f])) = .b64dec (some [0x66, 0x6f]) (.ok (some ([0x66, 0x6f, 0x00], 2))) := by
+  decide +kernel
+
+/-- `hexify`: L1 = the lower-case hex text and a NUL = L2, for every input. -/
+theorem exec_hexify (b : List UInt8) :
+    stepOp (.hexify b) = .hexify (Spec.Hex.encode b ++ [0]) (.ok (Spec.Hex.encode b ++ [0])) := by
+  simp only [stepOp, (hexify_lowercase b).1]
+example : stepOp (.hexify [0x01, 0xab]) = .hexify [0x30, 0x31, 0x61, 0x62, 0] (.ok [0x30, 0x31, 0x61, 0x62, 0]) := by
+  decide +kernel
+
+/-- `unhex` (the token as a C string `s`, any `len`): L1 = the value of the first `2 * len` characters if there are
+    that many and all are hex digits, else `none`; L2 = L1. -/
+theorem exec_unhex (inp : List UInt8) (len : Nat) :
+    stepOp (.unhex inp len) =
+      .unhex (if 2 * len ≤ (cbytes inp).length then Spec.Hex.decode ((cbytes inp).take (2 * len)) else none)
+        (.ok (if 2 * len ≤ (cbytes inp).length then Spec.Hex.decode ((cbytes inp).take (2 * len)) else none)) := by
+  simp only [stepOp, unhexify_exact (cbytes inp) (Proofs.ParsersStep.cbytes_ne0 inp) len]
+example : stepOp (.unhex [0x61, 0x42, 0x66, 0x46, 0x30, 0x00, 0x31] 2) = .unhex (some [0xab, 0xff]) (.ok (some [0xab, 0xff])) ∧
+    stepOp (.unhex [0x61, 0x42, 0x00, 0x46] 2) = .unhex none (.ok none) := by decide +kernel
+
+/-- `unhex` of the hex text of `b` with `len = |b|`: L1 = L2 = `b`. -/
+theorem exec_unhex_hexify (b : List UInt8) :
+    stepOp (.unhex (Spec.Hex.encode b) b.length) = .unhex (some b) (.ok (some b)) := by
+  have hd := Proofs.Hex.decode_encode b
+  have h0 : ∀ c ∈ Spec.Hex.encode b, c ≠ 0 := fun c hc =>
+    Proofs.Hex.isDigit_ne0 c (List.all_eq_true.mp (Proofs.Hex.decode_all _ _ hd) c hc)
+  have hl : (Spec.Hex.encode b).length = 2 * b.length := (Proofs.Hex.decode_length _ _ hd).symm
+  rw [exec_unhex, Proofs.ParsersStep.cbytes_id _ h0, if_pos (by omega), List.take_of_length_le (by omega), hd]
+example : stepOp (.unhex (Spec.Hex.encode [0x01, 0xab]) 2) = .unhex (some [0x01, 0xab]) (.ok (some [0x01, 0xab])) := by
+  decide +kernel
+
+/-- `unhexb` (a block without terminator, within the contract `2 * len ≤ |inp|`): L1 = the value of the first
+    `2 * len` bytes if none is NUL and all are hex digits, else `none`; L2 = L1. -/
+theorem exec_unhexb (inp : List UInt8) (len : Nat) (h : 2 * len ≤ inp.length) :
+    stepOp (.unhexb inp len) =
+      .unhexb (if (inp.take (2 * len)).all (· != 0) then Spec.Hex.decode (inp.take (2 * len)) else none)
+        (.ok (if (inp.take (2 * len)).all (· != 0) then Spec.Hex.decode (inp.take (2 * len)) else none)) := by
+  simp only [stepOp, if_neg (Nat.not_lt.mpr h), Proofs.Hex.unhexify_block inp len h]
+example : stepOp (.unhexb [0x61, 0x62, 0x63, 0x64] 2) = .unhexb (some [0xab, 0xcd]) (.ok (some [0xab, 0xcd])) := by
+  decide +kernel
+
+/-- `endian` (any of the six routines, any offset with the access inside the buffer, any value — truncated to the
+    width by the C prototype): L1 = the buffer with the `w.bytes` bytes at `off` replaced by the defined byte order of
+    `x`, and the value the bytes at `off` denote; L2 (what the model's store wrote, what its load returned) = L1. -/
+theorem exec_endian (be : Bool) (w : Width) (off x : Nat) (buf : List UInt8) (h : off + w.bytes ≤ buf.length) :
+    stepOp (.endian be w off x buf) =
+      .endian w
+        (buf.take off ++ (if be then Spec.Endian.beBytes w.bytes x else Spec.Endian.leBytes w.bytes x) ++ buf.drop (off + w.bytes))
+        (if be then Spec.Endian.beVal ((buf.drop off).take w.bytes) else Spec.Endian.leVal ((buf.drop off).take w.bytes))
+        (.ok (buf.take off ++ (if be then Spec.Endian.beBytes w.bytes x else Spec.Endian.leBytes w.bytes x) ++ buf.drop (off + w.bytes)))
+        (.ok (if be then Spec.Endian.beVal ((buf.drop off).take w.bytes) else Spec.Endian.leVal ((buf.drop off).take w.bytes))) :=
+  Proofs.ParsersStep.endianOp_eq be w off x buf h
+example : stepOp (.endian true .w32 3 0x01020304 [9, 9, 9, 9, 8, 7, 6]) =
+    .endian .w32 [9, 9, 9, 1, 2, 3, 4] 0x09080706 (.ok [9, 9, 9, 1, 2, 3, 4]) (.ok 0x09080706) := by decide +kernel
+
+/-- `sser` (any family / socktype, any name block shorter than 2^32): the model serialises to `12 + |name|` bytes,
+    deserialising them gives the address back and so does `dup` — the L2 part equals the constant L1 part
+    `rt=1 dup=1`. -/
+theorem exec_sser (family socktype : UInt32) (name : List UInt8) (h : name.length < 2 ^ 32) :
+    ∃ bytes, stepOp (.sser family socktype name) = .sser (.ok (bytes, true, true)) ∧ bytes.length = 12 + name.length := by
+  have hwf : SockAddr.WF { family, socktype, namelen := UInt32.ofNat name.length, name := name.toArray } := by
+    simp only [SockAddr.WF, List.size_toArray, UInt32.toNat_ofNat']
+    omega
+  obtain ⟨bytes, h1, h2, h3⟩ := sock_addr_deserialize_serialize _ hwf
+  refine ⟨bytes, ?_, by rw [h2, UInt32.toNat_ofNat']; omega⟩
+  simp only [stepOp, ParsersStep.sser, h1, mapRes, h3, sock_addr_dup_eq _ hwf, beq_self_eq_true]
+example : stepOp (.sser 2 1 [7, 8]) = .sser (.ok ([2, 0, 0, 0, 1, 0, 0, 0, 2, 0, 0, 0, 7, 8], true, true)) := by
+  decide +kernel
+
+/-- `skipvv` (the buffer is `pre ++ d.ser ++ post` for a well-formed value `d` followed by something that can
+    follow it): L1 = the offset of the end of the value's text = L2. -/
+theorem exec_skipvv (pre : List UInt8) (d : JDoc) (post : List UInt8) (hd : d.WF) (hf : followOK d post) :
+    stepOp (.skipvv (pre ++ d.ser ++ post) pre d post) =
+      .skipvv (.answer (pre.length + d.ser.length) (.ok (pre.length + d.ser.length))) := by
+  simp only [stepOp, bne_self_eq_false, Bool.false_eq_true, if_false, skip_value_consumes_exactly pre d post hd hf]
+example : stepOp (.skipvv [0x20, 0x5b, 0x31, 0x2c, 0x20, 0x32, 0x5d, 0x2c] [0x20]
+      (.arr (.more [] (.num [0x31]) [] (.one [0x20] (.num [0x32]) []))) [0x2c]) =
+    .skipvv (.answer 7 (.ok 7)) := by decide +kernel
+
+/-- `jfindv` (the buffer is `lead ++ d.ser ++ trail` with `lead` whitespace and `d` well formed; the key is the C
+    string of the token): L1 = `Spec.JVal.expectedFind` = L2. -/
+theorem exec_jfindv (lead : Ws) (d : JDoc) (trail key : List UInt8) (hl : WsWF lead) (hd : d.WF) :
+    stepOp (.jfindv (lead ++ d.ser ++ trail) key lead d trail) =
+      .jfindv (.answer (expectedFind lead d trail (cbytes key)) (.ok (expectedFind lead d trail (cbytes key)))) := by
+  simp only [stepOp, bne_self_eq_false, Bool.false_eq_true, if_false,
+    json_find_spec lead d trail (cbytes key) hl hd (Proofs.ParsersStep.cbytes_ne0 key)]
+/-- `{"x":[1, 2],"k":3}`, key token `k\0junk`: the value `3` is at offset 16 -/
+example : stepOp (.jfindv [0x7b, 0x22, 0x78, 0x22, 0x3a, 0x5b, 0x31, 0x2c, 0x20, 0x32, 0x5d, 0x2c, 0x22, 0x6b, 0x22, 0x3a, 0x33, 0x7d]
+      [0x6b, 0x00, 0x6a] []
+      (.obj (.more [] [.raw 0x78] [] [] (.arr (.more [] (.num [0x31]) [] (.one [0x20] (.num [0x32]) []))) []
+        (.one [] [.raw 0x6b] [] [] (.num [0x33]) []))) []) =
+    .jfindv (.answer 16 (.ok 16)) := by decide +kernel
+
+/-- an op whose description does not denote its buffer is reported as such (never as an answer) -/
+theorem exec_described_mismatch (doc key a : List UInt8) (d : JDoc) (b : List UInt8) (h : a ++ d.ser ++ b ≠ doc) :
+    stepOp (.jfindv doc key a d b) = .jfindv .mismatch ∧ stepOp (.skipvv doc a d b) = .skipvv .mismatch := by
+  have hb : (a ++ d.ser ++ b != doc) = true := by simpa using h
+  simp only [stepOp, hb, if_true, and_self]
+example : stepOp (.skipvv [0x5b, 0x5d, 0x20] [] (.arr0 []) [0x21]) = .skipvv .mismatch := by decide +kernel
+
+/-- `Spec.Inet` satisfies the IPv4 half of `InetLaws`: `inet_pton(AF_INET, inet_ntop(AF_INET, a)) = a` for every
+    4-byte address, and the text has no `':'` and no NUL. -/
+theorem inet4_pton_ntop (a : List UInt8) (h : a.length = 4) :
+    ntop4 a = some (Inet.print4 a) ∧ Inet.parse4 (Inet.print4 a) = some a ∧
+      (∀ c ∈ Inet.print4 a, c ≠ 0x3a) ∧ (∀ c ∈ Inet.print4 a, c ≠ 0) :=
+  ⟨Proofs.ParsersStep.ntop4_eq a h, Proofs.ParsersStep.parse4_print4 a h,
+   fun c hc => (Proofs.ParsersStep.print4_chars a h c hc).2, fun c hc => (Proofs.ParsersStep.print4_chars a h c hc).1⟩
+example : Inet.print4 [192, 168, 0, 1] = "192.168.0.1".toUTF8.toList := by decide +kernel
+
+/-- `sres` on a Unix path (leading '/', no NUL, shorter than `sun_path`): L1 = the `sockaddr_un` holding the path;
+    L2: its text is the path, and that resolves back to the same address (`m=1`). -/
+theorem exec_sres_unix (path : List UInt8) (hs : path.head? = some 0x2f) (h0 : ∀ c ∈ path, c ≠ 0)
+    (hl : path.length < sunPathSize) :
+    stepOp (.sres path) = .sres (.addr (mkUn path) path true) := by
+  simp only [stepOp, Proofs.ParsersStep.cbytes_id path h0, Proofs.ParsersStep.sres_unix path hs h0 hl]
+example : stepOp (.sres "/tmp/s".toUTF8.toList) = .sres (.addr (mkUn "/tmp/s".toUTF8.toList) "/tmp/s".toUTF8.toList true) := by
+  decide +kernel
+
+/-- `sres` on a bracketed IPv4 literal `[t]:p` (`t` any text `Spec.Inet.parse4` accepts, port 1..65535): L1 = the
+    `sockaddr_in` with the address `t` denotes and port `p`; L2: its text is `[inet_ntop(a)]:p`, and that resolves
+    back to the same address (`m=1`) — for EVERY IPv4 address, by `inet4_pton_ntop`. -/
+theorem exec_sres_v4 (t a : List UInt8) (p : Nat) (h0 : ∀ c ∈ t, c ≠ 0) (hc : ∀ c ∈ t, c ≠ 0x3a)
+    (ht : Inet.parse4 t = some a) (h1 : 1 ≤ p) (h2 : p ≤ 65535) :
+    stepOp (.sres ([0x5b] ++ t ++ [0x5d, 0x3a] ++ decimal p)) =
+      .sres (.addr (mkIn a p) ([0x5b] ++ Inet.print4 a ++ [0x5d, 0x3a] ++ decimal p) true) := by
+  have ha := Proofs.ParsersStep.parse4_length t a ht
+  obtain ⟨_, l2, l3, l4⟩ := inet4_pton_ntop a ha
+  have hn : ∀ c ∈ [0x5b] ++ t ++ [0x5d, 0x3a] ++ decimal p, c ≠ 0 := by
+    intro c hm
+    simp only [List.mem_append, List.mem_cons, List.not_mem_nil, or_false] at hm
+    rcases hm with ((rfl | hm) | rfl | rfl) | hm
+    · decide
+    · exact h0 c hm
+    · decide
+    · decide
+    · exact Proofs.SockAddr.decimal_nul p c hm
+  simp only [stepOp, Proofs.ParsersStep.cbytes_id _ hn, Proofs.ParsersStep.sres_v4 t a p h0 hc ht h1 h2 l4 l3 l2]
+example : stepOp (.sres "[1.2.3.4]:80".toUTF8.toList) =
+    .sres (.addr (mkIn [1, 2, 3, 4] 80) "[1.2.3.4]:80".toUTF8.toList true) := by decide +kernel
+
+/- The full statement for IPv6 would be `exec_sres_v4` with `parse6` / `print6` / `mkIn6` and `0x3a ∈ t`, without the
+   three hypotheses on `Inet.print6 a`.  What is missing: the IPv6 half of `InetLaws` for `Spec.Inet`, i.e.
+   `parse6 (print6 a) = some a`, `0x3a ∈ print6 a`, no NUL in `print6 a`, for every 16-byte `a` (`print6` chooses the
+   longest zero run with a loop and has the dotted-quad forms; not proved).  The three hypotheses are decidable for a
+   concrete address (see the example). -/
+/-- `sres` on a bracketed IPv6 literal `[t]:p`: L1 = the `sockaddr_in6` with the address `t` denotes and port `p`;
+    L2: its text is `[inet_ntop(a)]:p`, which resolves back to the same address if `inet_pton` undoes `inet_ntop` on
+    this address. -/
+theorem exec_sres_v6_partial (t a : List UInt8) (p : Nat) (h0 : ∀ c ∈ t, c ≠ 0) (hc : 0x3a ∈ t)
+    (ht : Inet.parse6 t = some a) (h1 : 1 ≤ p) (h2 : p ≤ 65535)
+    (h0' : ∀ c ∈ Inet.print6 a, c ≠ 0) (hc' : 0x3a ∈ Inet.print6 a) (ht' : Inet.parse6 (Inet.print6 a) = some a) :
+    stepOp (.sres ([0x5b] ++ t ++ [0x5d, 0x3a] ++ decimal p)) =
+      .sres (.addr (mkIn6 a p) ([0x5b] ++ Inet.print6 a ++ [0x5d, 0x3a] ++ decimal p) true) := by
+  have hn : ∀ c ∈ [0x5b] ++ t ++ [0x5d, 0x3a] ++ decimal p, c ≠ 0 := by
+    intro c hm
+    simp only [List.mem_append, List.mem_cons, List.not_mem_nil, or_false] at hm
+    rcases hm with ((rfl | hm) | rfl | rfl) | hm
+    · decide
+    · exact h0 c hm
+    · decide
+    · decide
+    · exact Proofs.SockAddr.decimal_nul p c hm
+  simp only [stepOp, Proofs.ParsersStep.cbytes_id _ hn, Proofs.ParsersStep.sres_v6 t a p h0 hc ht h1 h2 h0' hc' ht']
+/-- `[0:0:0:0:0:0:0:1]:80` is printed as `[::1]:80`; the hypotheses hold for this address -/
+example : stepOp (.sres "[0:0:0:0:0:0:0:1]:80".toUTF8.toList) =
+      .sres (.addr (mkIn6 [0, 0, 0, 0, 0, 0, 0, 0, 0, 0, 0, 0, 0, 0, 0, 1] 80) "[::1]:80".toUTF8.toList true) ∧
+    Inet.parse6 (Inet.print6 [0, 0, 0, 0, 0, 0, 0, 0, 0, 0, 0, 0, 0, 0, 0, 1]) = some [0, 0, 0, 0, 0, 0, 0, 0, 0, 0, 0, 0, 0, 0, 0, 1] ∧
+    0x3a ∈ Inet.print6 [0, 0, 0, 0, 0, 0, 0, 0, 0, 0, 0, 0, 0, 0, 0, 1] := by decide +kernel
+
+/-- `abi`: the platform constants the models of sock.c / sock_util.c are written for, as `stepOp` prints them (the
+    harness prints the C compiler's; a difference is an L2 divergence). -/
+theorem exec_abi : stepOp .abi = .abi 1 2 10 1 108 110 16 28 := rfl
+example : stepOp .abi ≠ .ooc := by decide
 
 end Percival.C17
